@@ -67,8 +67,25 @@ def make_pool(rng, n):
             by = rng.choice(cols if rng.random() < 0.7 else ["u", "rid"])
             if by == "f":
                 by = "g"
-            pool.append({"t": "sort", "table": tspec, "np": rng.choice([2, 3, 5]), "kind": rng.choice(["set_index", "sort_values"]), "by": by,
-                         "ascending": rng.random() < 0.7, "npartitions": rng.choice([None, None, 2, 4]), "upsample": rng.choice([None, None, 0.5, 2.0])})
+            q = {"t": "sort", "table": tspec, "np": rng.choice([2, 3, 5]), "kind": rng.choice(["set_index", "sort_values"]), "by": by,
+                 "ascending": rng.random() < 0.7, "npartitions": rng.choice([None, None, 2, 4]), "upsample": rng.choice([None, None, 0.5, 2.0])}
+            pool.append(q)
+            if rng.random() < 0.6:
+                # a sibling differing in exactly one field that a cache key must contain (direction, partition hint, sampling, layout)
+                field = rng.choice(["ascending", "npartitions", "upsample", "np", "kind"])
+                sib = dict(q)
+                if field == "ascending":
+                    sib["kind"], sib["ascending"] = "sort_values", not q["ascending"]
+                    q["kind"] = "sort_values"
+                elif field == "npartitions":
+                    sib["npartitions"] = {None: 2, 2: 4, 4: None}[q["npartitions"]]
+                elif field == "upsample":
+                    sib["upsample"] = {None: 2.0, 2.0: 0.5, 0.5: None}[q["upsample"]]
+                elif field == "np":
+                    sib["np"] = {2: 3, 3: 5, 5: 2}[q["np"]]
+                else:
+                    sib["kind"] = "set_index" if q["kind"] == "sort_values" else "sort_values"
+                pool.append(sib)
         elif r < 0.62:
             pool.append({"t": "resize", "table": dict(tspec, seed=tspec["seed"] + rng.randrange(3)), "np": rng.choice([2, 4, 6]), "size": rng.choice(["1kiB", "2kiB", "600B"])})
         elif r < 0.70:
@@ -206,6 +223,7 @@ def run_case(case):
                 pickle.dump({"spec": spec, "observations": obs if obs else [{"kind": "result", "value": None, "step": -1}], "scratch": scratch}, fh)
             env = dict(os.environ)
             env["PYTHONPATH"] = VERIF_DIR + (os.pathsep + env["PYTHONPATH"] if env.get("PYTHONPATH") else "")
+            env["PYTHONHASHSEED"] = ["random", "1", "2"][qi % 3]
             try:
                 r = subprocess.run([sys.executable, "-W", "ignore", "-m", "vmon.observer", path], env=env, capture_output=True, text=True, timeout=100)
             except subprocess.TimeoutExpired:
